@@ -91,13 +91,17 @@ func Indent(dst *bytes.Buffer, src []byte, prefix, indent string) error {
 func appendIndent(dst, src []byte, prefix, indent string) ([]byte, error) {
 	// In v2, only spaces and tabs are allowed, while v1 allowed any character.
 	dstLen := len(dst)
+	fixupEnd := -1
 	if len(strings.Trim(prefix, " \t"))+len(strings.Trim(indent, " \t")) > 0 {
 		// Use placeholder spaces of correct length, and replace afterwards.
 		invalidPrefix, invalidIndent := prefix, indent
 		prefix = strings.Repeat(" ", len(prefix))
 		indent = strings.Repeat(" ", len(indent))
 		defer func() {
-			b := dst[dstLen:]
+			if fixupEnd < 0 {
+				return // syntax error: nothing was formatted
+			}
+			b := dst[dstLen:fixupEnd] // only the formatted value, not the preserved trailing whitespace
 			for i := bytes.IndexByte(b, '\n'); i >= 0; i = bytes.IndexByte(b, '\n') {
 				b = b[i+len("\n"):]
 				n := len(b) - len(bytes.TrimLeft(b, " ")) // len(prefix)+n*len(indent)
@@ -122,6 +126,8 @@ func appendIndent(dst, src []byte, prefix, indent string) ([]byte, error) {
 	if err != nil {
 		return dst[:dstLen], transformSyntacticError(err)
 	}
+
+	fixupEnd = len(dst)
 
 	// In v2, trailing whitespace is discarded, while v1 preserved it.
 	if n := len(src) - len(bytes.TrimRight(src, " \n\r\t")); n > 0 {
